@@ -38,6 +38,8 @@ class _PathStub(object):
 
     def exists(self, p):
         """arbitrary but functional: the same path always gets the same answer"""
+        if symx.CTX is None:
+            return True
         if not isinstance(p, str):
             raise TypeError("stat: path should be string, bytes, os.PathLike or integer, not %s" % type(p).__name__)
         t = p.e if isinstance(p, SymStr) else z3.StringVal(p)
@@ -66,12 +68,18 @@ def boot(scratch):
 
 # ------------------------------------------------------------------ raw values
 CONCRETE_INTS = False     # BooleanParameter tests isinstance(value, int): integers are enumerated concretely for it
-RAW_KINDS = ['int', 'float', 'bool', 'str', 'str_int', 'str_float', 'str_bool', 'list_int', 'list_str', 'list_mixed', 'nested', 'empty_list',
+RAW_KINDS = ['other_number', 'int', 'float', 'bool', 'str', 'str_int', 'str_float', 'str_bool', 'list_int', 'list_str', 'list_mixed', 'nested', 'empty_list',
              'dict', 'empty_dict', 'none', 'command', 'result_name', 'type', 'abs_path', 'rel_path']
 
 
 def make_raw(ctx, kind, tag='v'):
     """-> (raw value with proxies, spec tree for concretisation)"""
+    if kind == 'other_number':
+        import numpy
+        from fractions import Fraction
+        from decimal import Decimal
+        i = ctx.choice(tag + '.othernum', 5)
+        return [numpy.float32(2.5), Fraction(5, 2), Decimal('2.5'), numpy.int16(3), numpy.float64(-0.75)][i], ('othernum', i)
     if kind == 'int' and CONCRETE_INTS:
         i = [0, 1, 2, -3][ctx.choice(tag + '.intchoice', 4)]
         return i, ('const', i)
@@ -146,6 +154,8 @@ def concretise(spec, m):
         return {'t': 'str', 'v': symx.model_value(m, spec[1].e)}
     if t == 'const':
         return {'t': 'const', 'v': spec[1]}
+    if t == 'othernum':
+        return {'t': 'othernum', 'v': spec[1]}
     if t == 'type':
         return {'t': 'type', 'v': spec[1]}
     if t == 'command':
@@ -163,6 +173,11 @@ def materialise(j, program):
         return int(j['v']) if j['int'] else float(j['v'])
     if t in ('str', 'const'):
         return j['v']
+    if t == 'othernum':
+        import numpy
+        from fractions import Fraction
+        from decimal import Decimal
+        return [numpy.float32(2.5), Fraction(5, 2), Decimal('2.5'), numpy.int16(3), numpy.float64(-0.75)][j['v']]
     if t == 'type':
         return {'float': float, 'int': int, 'str': str}[j['v']]
     if t == 'command':
@@ -236,7 +251,7 @@ PARAMS = ['Parameter', 'String', 'Number', 'Boolean', 'Path', 'PathMustExist', '
 
 
 def plan(tier, seed):
-    jobs = []
+    jobs = [dict(param='Path', raw='two-programs', wd=True)]
     for pn in PARAMS:
         for kind in RAW_KINDS:
             if kind in ('abs_path', 'rel_path') and not pn.startswith('Path') and pn != 'String':
@@ -293,7 +308,8 @@ def equal_values(a, b):
 def typed_ok(pn, raw_kind, out, wd):
     """documented type of a cleaned value (python-level part; symbolic parts are terms)"""
     def is_num(x):
-        return isinstance(x, SymNum) or (isinstance(x, (int, float)))
+        from numbers import Number
+        return isinstance(x, SymNum) or isinstance(x, Number)
 
     def is_text(x):
         return isinstance(x, str)
@@ -347,7 +363,7 @@ def expected_outcome(pn, kind, wd):
     if pn in ('Parameter', 'String'):
         return True
     if pn == 'Number':
-        if kind in ('int', 'float', 'bool', 'str_int', 'str_float'):
+        if kind in ('int', 'float', 'bool', 'str_int', 'str_float', 'other_number'):
             return True
         if kind in NON_SCALAR or kind == 'str_bool':
             return False
@@ -397,6 +413,8 @@ def expected_value(pn, kind, raw, out):
     """term saying the cleaned value is the documented one (where the documentation fixes it), else None"""
     if pn == 'Number' and kind in ('int', 'float'):
         return equal_values(raw, out)
+    if pn == 'Number' and kind == 'other_number':
+        return z3.BoolVal(bool(out == raw))       # every real-number type passes through with its value
     if pn == 'Boolean' and kind == 'int':
         return z3.BoolVal(out is (raw != 0)) if isinstance(out, bool) else None
     if pn == 'Boolean' and kind == 'bool':
@@ -433,7 +451,32 @@ def call_clean(param, raw, program, E):
         return 'escaped:' + type(e).__name__, e
 
 
+def two_programs_harness(ctx, cfg):
+    """history: the same relative path is cleaned for two programs with different working directories (and for one
+    program whose working directory is reassigned): each result depends only on the program it is cleaned for"""
+    E = sys.modules['mpilot.exceptions']
+    param = make_param('Path')
+    raw, spec = make_raw(ctx, 'rel_path')
+    order = ctx.choice('order', 3)
+    p1, p2 = make_program('/first/dir'), make_program('/second/dir')
+    outs = []
+    seq = [(p1, '/first/dir'), (p2, '/second/dir'), (p1, '/first/dir')] if order == 0 else ([(p2, '/second/dir'), (p1, '/first/dir')] if order == 1 else [(p1, '/first/dir'), (p1, '/moved')])
+    obs, groups = [], {}
+    for i, (prog, wd) in enumerate(seq):
+        prog.working_dir = wd
+        oc, out = call_clean(param, raw, prog, E)
+        lab = 'step %d: the relative path is resolved against the working directory %s of the program it is cleaned for (%s)' % (i, wd, oc)
+        obs.append((lab, (symx._sterm(out) == z3.Concat(z3.StringVal(wd + '/'), raw.e)) if (oc == 'ok' and isinstance(out, str)) else z3.BoolVal(False)))
+        groups[lab] = 'Path per-program'
+
+    def conc(m, label):
+        return {'param': 'Path', 'wd': True, 'raw': concretise(spec, m), 'raw_kind': 'two-programs', 'order': order}
+    return {'outcome': 'two-programs', 'obligations': obs, 'groups': groups, 'concretise': conc, 'validated': True, 'replay': {'param': 'Path', 'raw_kind': 'two-programs'}}
+
+
 def harness(ctx, cfg):
+    if cfg['raw'] == 'two-programs':
+        return two_programs_harness(ctx, cfg)
     E = sys.modules['mpilot.exceptions']
     global CONCRETE_INTS
     WDFLAG[0] = cfg['wd']
@@ -494,6 +537,7 @@ def concrete_run(rec):
     param = make_param(rec['param'])
     raw = materialise(rec['raw'], program)
     before = copy.deepcopy(raw) if not hasattr(raw, 'result_name') else raw
+    saved_ctx = symx.CTX
     symx.CTX = symx.Ctx([], [])
     try:
         oc1, out1 = call_clean(param, raw, program, E)
@@ -515,6 +559,8 @@ def concrete_run(rec):
                 facts['documented_value'] = out1 is bool(int(raw))
             elif rec['param'] == 'Number' and k in ('int', 'float'):
                 facts['documented_value'] = out1 == raw and type(out1) is type(raw)
+            elif rec['param'] == 'Number' and k == 'other_number':
+                facts['documented_value'] = bool(out1 == raw)
             elif rec['param'] in ('String',) and isinstance(raw, str):
                 facts['documented_value'] = out1 == raw
             elif rec['param'] == 'Path' and k == 'abs_path':
@@ -528,7 +574,7 @@ def concrete_run(rec):
                 facts['idem'] = oc3 == 'ok' and (out3 == out1 or out3 is out1) and type(out3) is type(out1)
         return facts
     finally:
-        symx.CTX = None
+        symx.CTX = saved_ctx
 
 
 def path_check(rec, oc):
@@ -547,6 +593,25 @@ def path_check(rec, oc):
 
 
 def confirm(rec, label):
+    if rec.get('raw_kind') == 'two-programs':
+        E = sys.modules['mpilot.exceptions']
+        param = make_param('Path')
+        raw = rec['raw']['v']
+        p1, p2 = make_program('/first/dir'), make_program('/second/dir')
+        order = rec['order']
+        seq = [(p1, '/first/dir'), (p2, '/second/dir'), (p1, '/first/dir')] if order == 0 else ([(p2, '/second/dir'), (p1, '/first/dir')] if order == 1 else [(p1, '/first/dir'), (p1, '/moved')])
+        got = []
+        saved_ctx = symx.CTX
+        symx.CTX = symx.Ctx([], [])
+        try:
+            for prog, wd in seq:
+                prog.working_dir = wd
+                oc, out = call_clean(param, raw, prog, E)
+                got.append((wd, out if oc == 'ok' else oc))
+        finally:
+            symx.CTX = saved_ctx
+        bad = [g for g in got if g[1] != g[0] + '/' + raw]
+        return bool(bad), 'concrete history on the relative path %r: %s' % (raw, got)
     f = concrete_run(rec)
     bad = f['escaped'] or not f['pure'] or not f['repeat'] or (f.get('idem') is False) or not f['documented_outcome'] or not f['documented_value'] or not f['typed']
     return bad, 'concrete run on %s with %s: %s' % (rec['param'], rec['raw'], f)
